@@ -74,6 +74,33 @@ def c12_laws(kind, n1=0, n2=0, s1="", s2="", **kw):
         i2, i3 = I(n=n2, c="ls -l", _generated=i1._generated), I(n=7, c="cat /x", _generated=i1._generated)
         a = O(r=i1, rs=[i3, i1], s="q")
         bad = _laws(a, O(r=i2, rs=[i3, i2], s="q", _generated=a._generated), n1 == n2)
+    elif kind == "evicted":
+        from flow.record.base import _generate_record_class
+
+        A1 = RecordDescriptor("c12/ev", [("varint", "n"), ("string", "s")])
+        a = A1(n=n1, s=s1)
+        _generate_record_class.cache_clear()  # the entry is evicted (what happens after 4096 other record types)
+        A2 = RecordDescriptor("c12/ev", [("varint", "n"), ("string", "s")])
+        b = A2(n=n2, s=s2, _generated=a._generated)
+        bad = _laws(a, b, n1 == n2 and s1 == s2)
+        if type(a) is type(b):
+            bad.append("harness: the classes are not distinct")
+    elif kind == "grouped_mutation":
+        from flow.record.base import set_ignored_fields_for_comparison
+
+        A, B = RecordDescriptor("c12/ga", [("varint", "n")]), RecordDescriptor("c12/gb", [("string", "s")])
+        a1, c1 = A(n=n1), B(s="c")
+        g1 = GroupedRecord("grp", [a1, c1])
+        hash(g1)
+        a1.n = n2
+        g2 = GroupedRecord("grp", [A(n=n2, _generated=a1._generated), B(s="c", _generated=c1._generated)])
+        bad = _laws(g1, g2, True)
+        set_ignored_fields_for_comparison(["n"])
+        try:
+            g3 = GroupedRecord("grp", [A(n=n2 + 1, _generated=a1._generated), B(s="c", _generated=c1._generated)])
+            bad += _laws(g1, g3, True)
+        finally:
+            set_ignored_fields_for_comparison([])
     elif kind in ("grouped", "grouped_ignore"):
         A, B = RecordDescriptor("c12/ga", [("varint", "n"), ("command", "c")]), RecordDescriptor("c12/gb", [("string", "s")])
         a1 = A(n=n1, c="ls -l")
